@@ -5,13 +5,13 @@ from specs.base import distinct
 
 
 @spec
-def scrubR(r: Seq(CSet), n: Int, R: Seq(Str)) -> Seq(CSet):
-    """the first n positions of r without the candidates listed in R; emptied positions disappear, order is kept"""
-    return () if n <= 0 else scrubR(r, n - 1, R) + (((r[n - 1] - frozenset(R)),) if len(r[n - 1] - frozenset(R)) > 0 else ())
+def scrubR(r: Seq(CSet), n: Int, R: CSet) -> Seq(CSet):
+    """the first n positions of r without the candidates in the set R; emptied positions disappear, order is kept"""
+    return () if n <= 0 else scrubR(r, n - 1, R) + (((r[n - 1] - R),) if len(r[n - 1] - R) > 0 else ())
 
 
 @spec
-def rc_ballot(b: Ballot, R: Seq(Str)) -> Ballot:
+def rc_ballot(b: Ballot, R: CSet) -> Ballot:
     """the ballot remove_cand writes for input ballot b: ranking scrubbed, scores of removed candidates dropped, weight kept;
     nothing left => the rankless, scoreless zero-weight ballot"""
     return (Ballot(ranking=scrubR(b.ranking, len(b.ranking), R), weight=b.weight,
@@ -26,7 +26,7 @@ def rc_ballot(b: Ballot, R: Seq(Str)) -> Ballot:
 
 
 @spec
-def rc_prefix(bs: Seq(Ballot), n: Int, R: Seq(Str)) -> Seq(Ballot):
+def rc_prefix(bs: Seq(Ballot), n: Int, R: CSet) -> Seq(Ballot):
     return () if n <= 0 else rc_prefix(bs, n - 1, R) + (rc_ballot(bs[n - 1], R),)
 
 
@@ -37,7 +37,7 @@ def keep_positive(bs: Seq(Ballot), n: Int) -> Seq(Ballot):
 
 
 @spec
-def keep_cands(cs: Seq(Str), n: Int, R: Seq(Str)) -> Seq(Str):
+def keep_cands(cs: Seq(Str), n: Int, R: CSet) -> Seq(Str):
     """the candidates among the first n that are not removed, in order"""
     return () if n <= 0 else keep_cands(cs, n - 1, R) + ((cs[n - 1],) if cs[n - 1] not in R else ())
 
@@ -48,7 +48,7 @@ def all_nonneg(bs: Seq(Ballot), n: Int) -> Bool:
 
 
 @lemma(induct="n")
-def rc_prefix_len(bs: Seq(Ballot), n: Int, R: Seq(Str)) -> Bool:
+def rc_prefix_len(bs: Seq(Ballot), n: Int, R: CSet) -> Bool:
     return implies(n >= 0, len(rc_prefix(bs, n, R)) == n)
 
 
@@ -65,12 +65,12 @@ def all_nonneg_left(a: Seq(Ballot), b: Seq(Ballot), n: Int) -> Bool:
 
 @lemma(induct="n", unfold=3, hint=lambda bs, n, R: rc_prefix_len(bs, n - 1, R) and rc_prefix_len(bs, n, R)
        and all_nonneg_left(rc_prefix(bs, n - 1, R), rc_prefix(bs, n, R)[n - 1:], n - 1))
-def rc_prefix_nonneg(bs: Seq(Ballot), n: Int, R: Seq(Str)) -> Bool:
+def rc_prefix_nonneg(bs: Seq(Ballot), n: Int, R: CSet) -> Bool:
     return implies(0 <= n and n <= len(bs) and all_nonneg(bs, n), all_nonneg(rc_prefix(bs, n, R), n))
 
 
 @lemma(induct="n")
-def keep_cands_members(cs: Seq(Str), n: Int, R: Seq(Str), c: Str) -> Bool:
+def keep_cands_members(cs: Seq(Str), n: Int, R: CSet, c: Str) -> Bool:
     """a kept candidate is one of the first n candidates"""
     return implies(0 <= n and n <= len(cs) and c in keep_cands(cs, n, R), c in cs[:n])
 
@@ -82,6 +82,6 @@ def distinct_left(a: Seq(Str), b: Seq(Str), n: Int) -> Bool:
 
 @lemma(induct="n", hint=lambda cs, n, R: keep_cands_members(cs, n - 1, R, cs[n - 1])
        and distinct_left(keep_cands(cs, n - 1, R), (cs[n - 1],), len(keep_cands(cs, n - 1, R))))
-def keep_cands_distinct(cs: Seq(Str), n: Int, R: Seq(Str)) -> Bool:
+def keep_cands_distinct(cs: Seq(Str), n: Int, R: CSet) -> Bool:
     """filtering a duplicate-free candidate list leaves it duplicate-free"""
     return implies(0 <= n and n <= len(cs) and distinct(cs, n), distinct(keep_cands(cs, n, R), len(keep_cands(cs, n, R))))
